@@ -421,9 +421,13 @@ class ExprMixin:
             vv = self.eval(fld.validator_node, sub)
             while isinstance(vv, ValidatorV) and vv.kind == 'optional':
                 vv = vv.inner
-            if isinstance(vv, ValidatorV) and vv.kind == 'instance_of' and isinstance(vv.type, ClassV) and \
+            if isinstance(vv, ValidatorV) and vv.kind in ('instance_of', 'in_') and isinstance(vv.type, ClassV) and \
                     isinstance(vv.type.cls, ClassInfo):
                 typ = vv.type.cls
+            elif isinstance(vv, ValidatorV) and vv.kind == 'deep_iterable' and isinstance(vv.inner, ValidatorV) and \
+                    vv.inner.kind in ('instance_of', 'in_') and isinstance(vv.inner.type, ClassV) and \
+                    isinstance(vv.inner.type.cls, ClassInfo):
+                typ = ('iter', vv.inner.type.cls)
         self._var_memo[key] = typ
         return typ
 
@@ -555,7 +559,10 @@ class ExprMixin:
             if val is not None:
                 return val
         if fld is not None:
-            return SelfV(base.path + (fld.name,), self.field_type(holder, fld, fr), base.root_cls)
+            typ = self.field_type(holder, fld, fr)
+            if typ is None and fr is not None:
+                typ = fr.env.get('__refined__', {}).get(base.path + (fld.name,))
+            return SelfV(base.path + (fld.name,), typ, base.root_cls)
         v = holder.resolve_var(attr)
         if v is not None:
             return self.eval_var(v)
